@@ -53,7 +53,8 @@ def parse_ddl(I: Interp, model: SrcModel):
                 rest = col.group(3).upper()
                 t.columns[col.group(1)] = {"type": col.group(2).upper(), "notnull": "NOT NULL" in rest,
                                            "unique": "UNIQUE" in rest or "PRIMARY KEY" in rest,
-                                           "pk": "PRIMARY KEY" in rest}
+                                           "pk": "PRIMARY KEY" in rest,
+                                           "collate": (re.search(r"COLLATE\s+(\w+)", rest) or [None, None])[1]}
             tables[t.name] = t
     if len(tables) < 10:
         raise AnalysisError(f"DDL: only {len(tables)} CREATE TABLE statements understood, expected 10")
